@@ -10,7 +10,8 @@ RULE = ("records = one column each: strictly monotonic integer target_data profi
         "in any order, mask_edges on/off, bypass_checks on increasing profiles, method linear or log (powers of two, so "
         "the log-space weight is the same rational), through the kernel and through Grid.transform with bare-array, 1-D "
         "and N-D targets, custom suffix, extra dims in both orders, dask chunking; non-trivial = distinct "
-        "(theta, levels, options, route)")
+        "(theta, levels, options, route)"
+        ' Also: target values under affine maps, target_data left at its default (the axis coordinate, input with or without it), integer / float32 target_data, 1-D targets with foreign index labels, data with one more dimension than target_data, an earlier transform on the same Grid.')
 
 
 def mono(rng, n, T):
